@@ -27,7 +27,8 @@ func init() { register("c17", "Model.RunKeystoreWrite", runC17) }
 type c17Op struct {
 	o          kop
 	res, val   int
-	start, end int // scheduler turn in which the operation started / returned
+	start, end int   // scheduler turn in which the operation started / returned
+	rids       []int // ListKeys (c17ser.go): the rings listed
 }
 
 type c17Writer struct {
@@ -38,7 +39,8 @@ type c17Writer struct {
 	ops   []c17Op
 	pend  string
 	done  bool
-	turn  int // set by the scheduler before every grant
+	turn  int         // set by the scheduler before every grant
+	ro    api.KeyRing // the object of the last successful read-only OpenKeyRing (c17ser.go)
 }
 
 type c17Reader struct {
@@ -137,7 +139,7 @@ func c17Exec(inner *backend.InMemory, rid int, progs [][]kop, reads int, choose 
 		go func() {
 			for _, o := range w.prog {
 				op := c17Op{o: o, start: w.turn}
-				op.res, op.val = w.p.do(o)
+				op.res, op.val = c17sDo(w, o, &op)
 				op.end = w.turn
 				w.ops = append(w.ops, op)
 			}
@@ -225,6 +227,7 @@ func c17Exec(inner *backend.InMemory, rid int, progs [][]kop, reads int, choose 
 			tr.stuck = !allDone
 			break
 		}
+		c17sPeek = func(j int) string { p, _ := state(j); return p }
 		i := choose(k, order)
 		pend, _ := state(i)
 		lock.apply(i, pend)
@@ -507,6 +510,9 @@ func runC17(rep *vh.Report, r *vh.Rng, n int, thorough bool) {
 		}
 		sc++
 	}
+
+	// ---- (C) writers AND readers as handles of the model (alphabet xop, c17ser.go) ----
+	c17sFamilies(rep, r, n, thorough, &sc, &ord, explore)
 }
 
 // ---------- one executed schedule: record for the model replay + the property's oracle ----------
@@ -540,7 +546,12 @@ func c17Case(rep *vh.Report, sc int, family string, hist []histStep, progs [][]k
 			gs = append(gs, fmt.Sprintf("(%d%%nat, %d)", s.h, c17Tag(s.call)))
 		}
 	}
-	opTerm := fmt.Sprintf("Sched %s %s [%s]", coqHist(hist), c17ProgString(progs), strings.Join(gs, "; "))
+	var opTerm string
+	if c17sExtended(progs) { // readers among the handles: the generic machine over the alphabet xop
+		opTerm = fmt.Sprintf("SchedX %s %s [%s]", coqHist(hist), c17sProgString(progs), strings.Join(gs, "; "))
+	} else {
+		opTerm = fmt.Sprintf("Sched %s %s [%s]", coqHist(hist), c17ProgString(progs), strings.Join(gs, "; "))
+	}
 	var outs []string
 	for wi, w := range tr.ws {
 		for _, op := range w.ops {
@@ -548,7 +559,10 @@ func c17Case(rep *vh.Report, sc int, family string, hist []histStep, progs [][]k
 			if op.res == 0 {
 				res = fmt.Sprintf("ok(%d)", op.val)
 			}
-			outs = append(outs, fmt.Sprintf("h%d %s -> %s", wi, coqHop(op.o), res))
+			if op.o.kind == c17sListKeys && op.res == 0 {
+				res = fmt.Sprintf("ok%v", op.rids)
+			}
+			outs = append(outs, fmt.Sprintf("h%d %s -> %s", wi, c17sCoqXop(op.o), res))
 		}
 	}
 	replay := fmt.Sprintf("%s\n  schedule (handle:back-end call, handle %d = reader): %s\n  results: %s", opTerm, len(tr.ws), strings.Join(sch, " "), strings.Join(outs, "; "))
@@ -561,14 +575,20 @@ func c17Case(rep *vh.Report, sc int, family string, hist []histStep, progs [][]k
 		e := &vh.KswEnc{}
 		e.N(len(w.prog) - len(w.ops))
 		for _, op := range w.ops {
-			if op.res == 0 {
-				e.N(0).N(op.val)
-			} else {
+			switch {
+			case op.res != 0:
 				e.N(1)
+			case op.o.kind == c17sListKeys:
+				e.N(0).N(len(op.rids))
+				for _, x := range op.rids {
+					e.N(x)
+				}
+			default:
+				e.N(0).N(op.val)
 			}
 		}
-		if w.p.slots[0] != nil {
-			cur, keys := vh.KswView(w.p.slots[0])
+		if obj := c17sObject(w); obj != nil {
+			cur, keys := vh.KswView(obj)
 			e.N(1).Ring(cur, keys)
 		} else {
 			e.N(0)
@@ -587,6 +607,8 @@ func c17Case(rep *vh.Report, sc int, family string, hist []histStep, progs [][]k
 	rep.Count(fmt.Sprintf("preemptions:%d", min(pauses, 4)))
 
 	// ---- oracle (on the implementation only) ----
+	// serializability: the run equals the serial re-execution of its locked sections in commit order
+	c17sSerialOracle(rep, violate, hist, progs, tr, post, replay)
 	before, after := ringOf(pre, 0, 1), ringOf(post, 0, 1)
 	var beforeKeys []vh.KswKey
 	beforeCur := asn1.NoKey
@@ -708,6 +730,9 @@ func c17Case(rep *vh.Report, sc int, family string, hist []histStep, progs [][]k
 					if cnt == 1 {
 						visibleFailedGens++
 						rep.Count("gen:err-key-added")
+						// OBSERVATION, not a violation (Coq: C17_generate_atomic_refuted): generate = three locked
+						// sections, a FAILED generate may leave its never-current key behind.  C17 speaks of
+						// successful operations only, so this is counted in the evidence and nothing more.
 					}
 				}
 			case opSetCur:
